@@ -15,7 +15,7 @@ import sys
 import time
 
 VERIF = os.path.dirname(os.path.dirname(os.path.abspath(__file__)))
-CACHE = os.path.join(VERIF, ".cache")
+CACHE = os.environ.get("VERIF_CACHE") or os.path.join(VERIF, ".cache")   # (test tooling gives parallel sweep workers a cache each)
 DRIVER = os.path.join(VERIF, "driver", "target", "release", "specs-facts")
 
 FULL = "serde,uuid_entity,storage-event-control,derive"
@@ -276,9 +276,19 @@ def shapes_facts(tier="quick", root=None):
                 for pat in ("shapes-*", "specs-*"):
                     for fp in glob.glob(os.path.join(target, "debug", ".fingerprint", pat)):
                         shutil.rmtree(fp, ignore_errors=True)
+                # every analysed tree is a path dependency at another location = another package id: without this the artifacts of
+                # earlier trees (and one incremental directory each) pile up in the shared target directory for ever
+                for pat in ("libshapes-*", "shapes-*", "libspecs-*", "specs-*", "libspecs_derive-*", "specs_derive-*"):
+                    for fp in glob.glob(os.path.join(target, "debug", "deps", pat)):
+                        try:
+                            os.remove(fp)
+                        except OSError:
+                            pass
+                shutil.rmtree(os.path.join(target, "debug", "incremental"), ignore_errors=True)
                 env = dict(os.environ)
                 env.update({"CARGO_NET_OFFLINE": "true", "LD_LIBRARY_PATH": sysroot_lib() + ":" + os.environ.get("LD_LIBRARY_PATH", ""),
                             "RUSTFLAGS": "-Zmir-opt-level=0 -Awarnings", "RUSTC_WORKSPACE_WRAPPER": DRIVER, "CARGO_TARGET_DIR": target,
+                            "CARGO_INCREMENTAL": "0",
                             "FACTS_OUT": outdir, "FACTS_CRATES": "shapes", "FACTS_CONFIG": "shapes-" + tier, "FACTS_TREE": h})
                 r = subprocess.run(["cargo", "+nightly", "check", "--offline", "--lib"], cwd=crate, env=env, capture_output=True, text=True)
                 if r.returncode != 0 or not os.path.exists(fact):
